@@ -5,6 +5,10 @@ import XModel.OptFix
 import XModel.OptLimits
 /-!
 # C10 — accepted optimizer iterates respect limits, max_step and disabled knobs
+
+**Which tree.**  The model transcribes `/repo` as it stands now: the pinned commit plus the `fix:` commits recorded in
+`/verif/KNOWN_FINDINGS.json` (status `fixed`).  Where a theorem below rests on repaired code — `Clip.clip` is the repaired `_clip_to_max_steps` — it is false of
+the tree as first pinned; the witnesses are kept (`clipPinned` below violates the bound).
 -/
 namespace Properties.C10
 variable {K : Type} [Field K] [LinearOrder K] [IsStrictOrderedRing K]
